@@ -38,7 +38,7 @@ func main() {
 		}
 		src, _ := render(g.Prog, lay)
 		os.Stdout.Write(src)
-		res := runSource(src)
+		res := runSource(src, k%2)
 		fmt.Printf("\n-- load=%q top=%q scen=%v\n", res.LoadErr, res.TopErr, res.Scen)
 		for _, l := range g.Lines {
 			fmt.Printf("-- %s %+v spec=%d impl=%d\n", l.What, l.Src, l.SpecTok(), l.ImplTok())
@@ -56,7 +56,9 @@ func main() {
 	}
 	w.Meta.Rule = "one case = one generated Lua program (nested functions/blocks/loops, call chains of 1-3 Lua functions entered by pcall, directly, " +
 		"through methods or metamethods) rendered under N layouts (tidy, spread, comments, one token per line, blank lines, CR/LF/CRLF/LFCR, long strings " +
-		"spanning lines) and run on the real interpreter; observed: chunk:line: prefix of the injected fault, debug.getinfo currentline/linedefined/" +
+		"spanning lines; one layout per program in the style lexedge: comments, long strings and file ends drawn from the scanner's look-ahead decisions - long-bracket " +
+		"openers/closers cut at every position, directly before a line end or the end of input, glued to tokens, odd bytes - half of them padded so that the 4096-byte " +
+		"read buffer ends inside such a piece) and run on the real interpreter; observed: chunk:line: prefix of the injected fault, debug.getinfo currentline/linedefined/" +
 		"lastlinedefined, debug.getlocal/getupvalue enumerations at levels 1 and 2, setlocal/setupvalue read back; " +
 		"non-trivial = at least 3 line observations and some observed line differs between two layouts; distinct by Gallina term"
 	r := lib.NewRand(a.Seed)
@@ -221,7 +223,7 @@ func runCase(w *lib.Writer, in input, g *Generated, lays []Layout) {
 			}
 		}
 	}
-	for _, lay := range lays {
+	for li, lay := range lays {
 		src, spans := render(p, lay)
 		lex, err := lexLines(src)
 		if err != nil {
@@ -230,7 +232,7 @@ func runCase(w *lib.Writer, in input, g *Generated, lays []Layout) {
 			fail(fmt.Sprintf("generator: rendered program scans to %d tokens, built from %d", len(lex), len(p.Toks)))
 			lex = make([]int, len(p.Toks))
 		}
-		res := runSource(src)
+		res := runSource(src, li%2)
 		if res.LoadErr != "" {
 			fail("program did not load: " + res.LoadErr)
 		}
@@ -274,6 +276,9 @@ func runCase(w *lib.Writer, in input, g *Generated, lays []Layout) {
 					fail(fmt.Sprintf("point %d level %d: what=%q for a %s", l.Src.Pt, l.Src.Lvl, fi.What, map[bool]string{true: "main chunk", false: "function"}[l.Mode == "zero"]))
 				}
 			}
+		}
+		for _, x := range res.Incons {
+			fail(fmt.Sprintf("point %d level %d: getinfo(level, \"l\" / \"S\" / default) disagrees with the combined query", x[0], x[1]))
 		}
 		for _, id := range res.ThreadSetBad {
 			fail(fmt.Sprintf("point %d: debug.setlocal(co, 1, 1, v) did not set the first local of the suspended coroutine", id))
